@@ -895,15 +895,20 @@ class DATETIME(NUMERIC):
         if start is None and end is None:
             return query.Every(fieldname, boost=boost)
 
+        # An inclusive bound covers the whole typed period, an exclusive bound
+        # leaves the whole typed period out
         if start is not None:
-            startdt = self._parse_datestring(start).floor()
+            startdt = self._parse_datestring(start)
+            startdt = startdt.ceil() if startexcl else startdt.floor()
             start = datetime_to_long(startdt)
 
         if end is not None:
-            enddt = self._parse_datestring(end).ceil()
+            enddt = self._parse_datestring(end)
+            enddt = enddt.floor() if endexcl else enddt.ceil()
             end = datetime_to_long(enddt)
 
-        return query.NumericRange(fieldname, start, end, boost=boost)
+        return query.NumericRange(fieldname, start, end, startexcl, endexcl,
+                                  boost=boost)
 
 
 class BOOLEAN(FieldType):
